@@ -39,6 +39,7 @@ TRUSTED_EXTRA = ['CPython os / pathlib / shutil (mkdir(parents), open("x"), copy
                  'summarised by the tree primitives of Model/Files.v (lstat, mkdirs, alter, deref)']
 
 IMPORTS = ['Lib.Tree', 'Model.Files', 'Spec.C15']
+MARKER = 'MARKER-c15'       # name of the entry that must never appear outside of the populated directory
 
 
 def ctext(s):
@@ -147,11 +148,12 @@ class Runner:
         w('src4/c/deep/z', 'z4')                                   # a dangling link below a directory
         os.symlink('nowhere', os.path.join(h, 'src4/c/dang'))
         w('src4/a', 'A4')
+        w('src5/' + MARKER, 'marker')                              # used only together with forbidden FILE-NAMEs
         w('lnk_file', 'LF')
         w('lnk_dir/inner', 'in')
-        self.nsrc = 5
+        self.nsrc = 5          # sources used by the ordinary generators (src5 is the marker source)
         # iterdir order of every source, and its entries as Coq terms (in that order)
-        self.src_terms = [dirc_term(os.path.join(h, 'src%d' % i)) for i in range(self.nsrc)]
+        self.src_terms = [dirc_term(os.path.join(h, 'src%d' % i)) for i in range(self.nsrc + 1)]
 
     def status_of(self, r):
         if r.exception is not None:
@@ -169,7 +171,8 @@ class Runner:
         return r
 
     # ---- populate case ----
-    def run_populate(self, instrs):
+    def run_populate(self, instrs, populated=None):
+        """populated: components of the directory the (single) FILE-LIST of a forbidden-name case populates"""
         text = '[setup]\n\n' + '\n'.join(self.instr_src(i) for i in instrs) + '\n'
         r = self.run_case(self.phome, text, keep=True)
         status = self.status_of(r)
@@ -177,6 +180,19 @@ class Runner:
         sds_list = [n for n in entries if n.startswith('exactly-') and os.path.isdir(os.path.join(self.sbx, n))
                     and not os.path.islink(os.path.join(self.sbx, n))]
         tree_term, tree_json, problems = '(@nil (name * tree))', None, []
+        # the marker entry of a forbidden FILE-NAME must be nowhere but below the populated directory
+        if populated is not None:
+            inside = None
+            for area in (self.sbx, self.outside):
+                for dirpath, dirnames, filenames in os.walk(area):
+                    for n in dirnames + filenames:
+                        if n == MARKER:
+                            q = os.path.join(dirpath, n)
+                            rel = os.path.relpath(q, self.sbx).split(os.sep)
+                            ok = area == self.sbx and len(rel) > 2 + len(populated) and rel[1] == 'act' and rel[2:2 + len(populated)] == populated
+                            if not ok:
+                                problems.append('the marker entry of a forbidden FILE-NAME was created outside of the populated '
+                                                'directory %s: %s' % ('/'.join(populated), os.path.relpath(q, self.root)))
         for n in entries:
             if n not in sds_list:
                 q = os.path.join(self.sbx, n)
@@ -319,7 +335,7 @@ CONTENTS = ['', 'x', 'hello', 'yy']
 
 
 def bad_names(run):
-    return ['../e', 'a/../b', '..', 'a/..', os.path.join(run.outside, 'esc'), '/' + 'c15-abs-esc', 'a:b', 'a;b', '',
+    return ['../e', 'a/../b', '..', 'a/..', os.path.join(run.outside, 'esc'), os.path.join(run.outside, 'sub', 'esc'), 'a:b', 'a;b', '',
             '../../e', 'b/../../e']
 
 
@@ -394,6 +410,60 @@ def gen_list(rng, run, depth, allow_bad, n):
 
 
 TOP_NAMES = ['d', 'd', 'd', 'g', 'd/e']
+
+
+def forbidden_templates(run):
+    """(name template, kind); %s = where the marker goes when the name itself can carry it"""
+    out_abs = os.path.join(run.outside, '%s')
+    return [('..', 'dotdot'), ('../%s', 'dotdot'), ('a/..', 'dotdot'), ('a/../%s', 'dotdot'), ('a/../../%s', 'dotdot'),
+            ('./..', 'dotdot'), ('../..', 'dotdot'), ('../../%s', 'dotdot'), ('a/b/../../..', 'dotdot'), ('../a/%s', 'dotdot'),
+            ('..//%s', 'dotdot'), ('a/../..', 'dotdot'),
+            (out_abs, 'absolute'), (os.path.join(run.outside, 'sub', '%s'), 'absolute'), (run.outside, 'absolute'),
+            ('', 'other'), ('a:%s', 'other'), ('%s;b', 'other')]
+
+
+def gen_forbidden(rng, run):
+    """ONE FILE-LIST instruction with ONE forbidden FILE-NAME, in every shape: file / dir, without contents / = / +=,
+    at the top of the list or nested, the forbidden part first / last / in the middle of the name; the entry (or the
+    contents of it) is called MARKER.  Returns (instructions, components of the populated directory, kind)."""
+    tmpl, kind = rng.choice(forbidden_templates(run))
+    nm = tmpl % MARKER if '%s' in tmpl else tmpl
+    carries = '%s' in tmpl
+    marker_list = [('file', MARKER, ('=', 'marker'))]
+    shape = rng.below(9)
+    if shape == 0:
+        e = ('file', nm, None)
+    elif shape == 1:
+        e = ('file', nm, ('=', 'x'))
+    elif shape == 2:
+        e = ('file', nm, ('+=', 'x'))
+    elif shape == 3:
+        e = ('dir', nm)
+    elif shape == 4:
+        e = ('dirlist', nm, '=', marker_list)
+    elif shape in (5, 6):
+        e = ('dirlist', nm, '+=', marker_list)          # a directory that may well exist: the parent, the directory itself
+    elif shape == 7:
+        e = ('dircopy', nm, '=', run.nsrc)
+    else:
+        e = ('dircopy', nm, '+=', run.nsrc)
+    del carries
+    lst = []
+    if rng.chance(0.6):
+        lst.append(rng.choice([('dir', 'a'), ('dirlist', 'a', '=', [('dir', 'b')]), ('file', 'a/b/c', None), ('dir', 'a/b')]))
+    lst.append(e)
+    if rng.chance(0.3):
+        lst.append(('file', 'after', None))
+    for _ in range(rng.weighted([(0, 4), (1, 4), (2, 2)])):
+        lst = [('dirlist', rng.choice(['inner', 'sub', 'w/v']), '=', lst)]
+        if rng.chance(0.3):
+            lst.insert(0, ('file', 'sibling', None))
+    top = rng.choice([['d'], ['d'], ['top', 'inner'], ['g', 'h', 'i']])
+    if rng.chance(0.25):
+        instrs = [('make', ('dir', '/'.join(top))), ('make', ('dirlist', '/'.join(top), '+=', lst))]
+    else:
+        instrs = [('make', ('dirlist', '/'.join(top), '=', lst))]
+    return instrs, top, kind
 
 
 SRC_TOP_NAMES = ['a', 'b', 'c', 'f', 'lf', 'ld', 'dang']          # the names at the top of the copy sources
@@ -519,11 +589,25 @@ CORPUS_P = [
 ]
 
 
+_ML = [('file', MARKER, ('=', 'marker'))]
+CORPUS_FORBIDDEN = [
+    ([('make', ('dirlist', 'd', '=', [('dirlist', '..', '+=', _ML)]))], ['d'], 'dotdot'),
+    ([('make', ('dirlist', 'top', '=', [('dirlist', 'inner', '=', [('dirlist', '..', '+=', _ML)])]))], ['top'], 'dotdot'),
+    ([('make', ('dirlist', 'top/inner', '=', [('dirlist', '..', '+=', _ML)]))], ['top', 'inner'], 'dotdot'),
+    ([('make', ('dirlist', 'top/inner', '=', [('dircopy', '..', '+=', 5)]))], ['top', 'inner'], 'dotdot'),
+    ([('make', ('dirlist', 'd', '=', [('dir', 'a'), ('dirlist', 'a/..', '+=', _ML)]))], ['d'], 'dotdot'),
+    ([('make', ('dirlist', 'top/inner', '=', [('dir', 'a'), ('dirlist', 'a/../..', '+=', _ML)]))], ['top', 'inner'], 'dotdot'),
+    ([('make', ('dirlist', 'top/inner', '=', [('file', '../' + MARKER, None)]))], ['top', 'inner'], 'dotdot'),
+    ([('make', ('dirlist', 'd', '=', [('dirlist', '.', '+=', [('dirlist', '..', '+=', _ML)])]))], ['d'], 'dotdot'),
+]
+
+
 # =================================================================================================
 # generators: trees and matchers
 # =================================================================================================
-NODE_NAMES = ['a', 'b', 'c', 'a.txt', 'b.tar.gz', '.x', 'c.', 'sub', 'd1', 'e.txt']
-STR_PATS = ['*', 'a*', '*.txt', '?', '*.*', '[ab]*', '.*', 'sub', '*b*']
+NODE_NAMES = ['a', 'b', 'c', 'a.txt', 'b.tar.gz', '.x', 'c.', 'sub', 'd1', 'e.txt', '.hidden', 'f.', 'a..b', '..c', 'x.y.', '...', '.x.y']
+DOT_NAMES = ['.hidden', 'f.', 'a..b', '..c', 'x.y.', '...', '.x.y', '.x', 'c.', 'b.tar.gz']
+STR_PATS = ['*', 'a*', '*.txt', '?', '*.*', '[ab]*', '.*', 'sub', '*b*', '.', '', '?*', '.?*', '*.', '.[!.]*']
 PATH_PATS = ['*', '*/a', 'sub/*', '*/*/*', '*.txt', 'T*/*', '*/d1/*', 'a']
 CMPS = [('==', 'CEq'), ('!=', 'CNe'), ('<', 'CLt'), ('<=', 'CLe'), ('>', 'CGt'), ('>=', 'CGe')]
 PARTS = [('name', 'PName'), ('stem', 'PStem'), ('suffixes', 'PSuffixes'), ('suffix', 'PSuffix')]
@@ -538,7 +622,7 @@ def gen_tree(rng, max_nodes, max_depth):
     nodes = []
     for _ in range(n):
         comps, d, depth = rng.choice(dirs)
-        nm = rng.choice(NODE_NAMES)
+        nm = rng.choice(NODE_NAMES) if rng.chance(0.6) else rng.choice(DOT_NAMES)
         if nm in d[1]:
             continue
         if rng.chance(0.45) and depth < max_depth:
@@ -644,7 +728,7 @@ def gen_fm(rng, depth, rels, safe):
         if q < 45:
             return ('type', rng.below(3))
         if q < 70:
-            return ('name', rng.below(4), rng.below(len(STR_PATS)))
+            return ('name', rng.weighted([(0, 2), (1, 3), (2, 3), (3, 5)]), rng.below(len(STR_PATS)))
         if q < 80:
             return ('path', rng.below(len(PATH_PATS)))
         if safe:
@@ -937,9 +1021,17 @@ def collect(ctx, res, rng, n_p, n_trees, per_tree, scratch_name='c15-run'):
     run = Runner(os.path.join(ctx.work, scratch_name))
     terms, descs = [], []
     # ---------------- populate cases ----------------
-    for j in range(len(CORPUS_P) + n_p):
-        instrs = CORPUS_P[j] if j < len(CORPUS_P) else gen_instrs(rng, run)
-        o = run.run_populate(instrs)
+    for j in range(len(CORPUS_P) + len(CORPUS_FORBIDDEN) + n_p):
+        populated, fkind = None, None
+        if j < len(CORPUS_P):
+            instrs = CORPUS_P[j]
+        elif j < len(CORPUS_P) + len(CORPUS_FORBIDDEN):
+            instrs, populated, fkind = CORPUS_FORBIDDEN[j - len(CORPUS_P)]
+        elif rng.chance(0.14):
+            instrs, populated, fkind = gen_forbidden(rng, run)
+        else:
+            instrs = gen_instrs(rng, run)
+        o = run.run_populate(instrs, populated)
         if o['status'] not in STATUS:
             # SYNTAX_ERROR: the generator wrote something exactly does not parse; INTERNAL_ERROR etc.: report
             kind = 'property' if o['status'] not in ('SYNTAX_ERROR',) else None
@@ -953,6 +1045,8 @@ def collect(ctx, res, rng, n_p, n_trees, per_tree, scratch_name='c15-run'):
                                               cbool(not o['problems']))
         terms.append(term)
         f = instrs_features(instrs)
+        if fkind is not None:
+            f.add('forbidden-name-stream: ' + fkind)
         descs.append({'kind': 'populate', 'case': o['text'], 'status': o['status'], 'act_dir_afterwards': o['tree'],
                       'outside_problems': o['problems'], 'stderr': o['stderr'], 'features': sorted(f)})
         res.count('populate: status ' + o['status'])
@@ -1003,6 +1097,17 @@ def collect(ctx, res, rng, n_p, n_trees, per_tree, scratch_name='c15-run'):
                     fc = fc[:i] + fc[i + 1:] if rng.chance(0.5) else fc[:i] + [(fc[i][0], ('type', (fc[i][1][1] + 1) % 3))] + fc[i + 1:]
                 rng.shuffle(fc)
                 m = ('dirc', (None, None), ('matches', rng.chance(0.7), fc))
+            elif r < 20 and paths:
+                # count-sensitive: the files whose name part matches a pattern, counted; n at the boundary
+                part = rng.weighted([(0, 1), (1, 3), (2, 3), (3, 5)])
+                pat = rng.below(len(STR_PATS))
+                rec = rng.chance(0.5)
+                pool = paths if rec else [c for c in paths if len(c) == 1]
+                cnt = sum(1 for c in pool if fnmatch.fnmatch(py_name_part(part, c[-1]), STR_PATS[pat]))
+                fsm = ('sel', ('name', part, pat), ('num', rng.choice([0, 1, 3, 4]), cnt))
+                if rng.chance(0.3):
+                    fsm = ('every', ('or', ('name', part, pat), ('not', ('name', part, rng.below(len(STR_PATS))))))
+                m = ('dirc', (None, None) if rec else None, fsm)
             elif r < 80:
                 m = ('dirc', gen_cfg(rng), gen_fsm(rng, rng.randint(1, 3), rels1))
             else:
@@ -1057,7 +1162,11 @@ def run(ctx, res):
     n_p, n_trees, per_tree = (1400, 260, 8) if ctx.quick else (12000, 2400, 10)
     res.rule = ('populate cases: 1-4 setup instructions dir/file PATH (= | +=) (FILE-LIST up to 3 levels | dir-contents-of one of 5 '
                 'sources with links) and ln -s (dangling / to file / to dir) into the directory, names from a 16-name alphabet with '
-                'multi-component, ./, //, trailing / and "." forms, 4 % forbidden names (.., absolute, separators, empty); '
+                'multi-component, ./, //, trailing / and "." forms, 4 % forbidden names (.., absolute, separators, empty); 14 % of the '
+                'populate cases come from the forbidden-name stream: ONE forbidden FILE-NAME (.. first / last / in the middle / alone, '
+                'absolute into a watched directory, empty, with : or ;) as file / dir, without contents / = / += (list or copy), at the '
+                'top of the list or nested 1-2 levels, instruction path of 1-3 components, with an entry called MARKER-c15 that is '
+                'searched for in the whole sandbox root and the watched directory; '
                 'matcher cases: trees of <= 9 nodes + <= 3 symbolic links (to file, to directory, dangling; no cycles), depth <= 3, '
                 'random creation order; expressions of depth <= 3 over every files-matcher and file-matcher of the model, every '
                 'min/max depth in {none,0..3}, both nestings of -selection / -with-pruned, FILES-CONDITIONs built from the paths '
